@@ -28,7 +28,7 @@ m = dict(
     setup_cmd="./check setup",
     hooks=dict(
         guard="verif",
-        enable="go test -tags verif -overlay <work>/overlay.json -vet=off (the overlay maps /repo/varlink/zz_verif_export.go to /verif/overlay/zz_verif_export.go, a '//go:build verif' file with two accessors; nothing is changed in /repo)",
+        enable="go test -tags verif -overlay <work>/overlay.json -vet=off (the overlay maps /repo/varlink/zz_verif_export.go to /verif/overlay/zz_verif_export.go, a '//go:build verif' file with three accessors (install listener, read active-connection count, wrap an established net.Conn as a Connection); nothing guarded is committed in /repo)",
         baseline_off_cmd="cd /repo && go test -vet=off -count=1 ./varlink/... ./cmd/varlink-go-interface-generator/",
         source_commits=[],
         add_only=True),
